@@ -840,12 +840,21 @@ Definition interp_step (ev : expr -> machine -> outcome (value * machine)) (m : 
             | _ =>
                 match lookup_var x (m_scopes m1) with
                 | None => rt_err m1
-                | Some container =>
-                    (* evaluate_all_indexes: every index is a one-element list literal *)
+                | Some _ =>
+                    (* find_var_env_index fixes the scope BEFORE the index expressions are evaluated (an undeclared
+                       name is reported first); evaluate_all_indexes: every index is a one-element list literal;
+                       get_var_from_env reads the variable AFTER them, so an index expression that rebinds x decides
+                       which container is written.  The Rust code reads scopes[found].get(x).unwrap(): the model
+                       re-resolves the name instead -- the same scope, because an expression leaves every scope
+                       below its own calls with the names it had (modelling assumption, DESIGN.md D.5) *)
                     do '(path, m2) <- eval_indexes (ev) idx m1;
                     do p <- here m2;
-                    do m3 <- assign_path m2 container path v p;
-                    Ok (next m3)
+                    match lookup_var x (m_scopes m2) with
+                    | None => rt_err m2
+                    | Some container =>
+                        do m3 <- assign_path m2 container path v p;
+                        Ok (next m3)
+                    end
                 end
             end
           end
